@@ -83,6 +83,11 @@ type rec struct {
 type entry struct {
 	recs   map[uint64]*rec
 	fwdTok *uint32 // entry token attached to the last upstream transmission while the entry existed
+	// latest arrival + lifetime among ALL Interests that arrived for this entry since it came into
+	// being (recorded or not, superseded by a retransmission or not): past it, no Interest recorded
+	// in the entry is pending any more
+	deadline time.Time
+	dlTicks  int // number of reaper runs that had happened when the deadline was last raised
 }
 
 type ref struct {
@@ -94,6 +99,35 @@ type ref struct {
 	deadSince map[string]time.Time
 	nonceCtr  uint32
 	csWires   map[string]map[string]bool // Data name -> wires received and admissible to the cache
+	ticks     []time.Time                // when the periodic reaper ran
+}
+
+// lateTicks is the number of reaper runs after which an entry past its deadline is no longer
+// excused: "shortly after" of C08 (two reaper intervals).
+const lateTicks = 2
+
+// ticksSince counts the reaper runs at or after the entry's deadline that happened after the
+// Interest setting that deadline arrived (saturated at lateTicks).
+func (r *ref) ticksSince(e *entry) int {
+	n := 0
+	for _, x := range r.ticks[e.dlTicks:] {
+		if !x.Before(e.deadline) {
+			n++
+		}
+	}
+	if n > lateTicks {
+		n = lateTicks
+	}
+	return n
+}
+
+// lapsed: every Interest that ever arrived for the entry has outlived its lifetime AND the reaper
+// has run lateTicks times since. Until then a record past its own lifetime is "may" (the entry
+// may legitimately live on for a longer-lived Interest of another face or an earlier, longer-lived
+// Interest of the same face, and the reaper needs its chance); from then on no face holds a
+// pending Interest there in any reading of the text.
+func (r *ref) lapsed(e *entry, now time.Time) bool {
+	return !now.Before(e.deadline) && r.ticksSince(e) >= lateTicks
 }
 
 func newRef(cache bool) *ref {
@@ -262,6 +296,11 @@ func (r *ref) onInterest(in *inst, o *iOp, nonce uint32, life time.Duration, tok
 		}
 	}
 	r.gc(k)
+	if e := r.pend[k]; e != nil {
+		if dl := now.Add(life); dl.After(e.deadline) {
+			e.deadline, e.dlTicks = dl, len(r.ticks)
+		}
+	}
 	return
 }
 
@@ -314,6 +353,9 @@ type cand struct {
 	rc   *rec
 	must bool
 	why  string // why only "may"
+	// lapsed: the entry is past the lifetime of every Interest ever recorded in it and the reaper
+	// has had its runs: the face holds no pending Interest, a copy is forbidden
+	lapsed bool
 }
 
 func (r *ref) onData(in *inst, face uint64, name string, tok []byte, wire []byte, sends []fwsim.Send, now time.Time, repeat bool) (v []report.Violation) {
@@ -362,6 +404,8 @@ func (r *ref) onData(in *inst, face uint64, name string, tok []byte, wire []byte
 				c.must, c.why = false, "face no longer exists"
 			case f == face:
 				c.must, c.why = false, "arrival face"
+			case !now.Before(rc.expiry) && r.lapsed(e, now):
+				c.must, c.lapsed, c.why = false, true, "every lifetime recorded in the entry elapsed, reaper ran"
 			case !now.Before(rc.expiry):
 				c.must, c.why = false, "own lifetime elapsed"
 			case scopeOf(f) == defn.NonLocal && isLocalhostStr(name):
@@ -408,6 +452,8 @@ func (r *ref) onData(in *inst, face uint64, name string, tok []byte, wire []byte
 	for _, c := range cands {
 		if c.must {
 			stats["copies demanded (must)"]++
+		} else if c.lapsed {
+			stats["records allowed no copy (must-not): "+c.why]++
 		} else {
 			stats["records allowed 0 or 1 copy (may): "+c.why]++
 		}
@@ -424,7 +470,12 @@ func (r *ref) onData(in *inst, face uint64, name string, tok []byte, wire []byte
 		}
 	}
 	candByFace := map[uint64][]cand{}
+	lapsedByFace := map[uint64]int{}
 	for _, c := range cands {
+		if c.lapsed {
+			lapsedByFace[c.face]++
+			continue
+		}
 		candByFace[c.face] = append(candByFace[c.face], c)
 	}
 	faces := map[uint64]bool{}
@@ -441,6 +492,10 @@ func (r *ref) onData(in *inst, face uint64, name string, tok []byte, wire []byte
 	sort.Slice(fl, func(a, b int) bool { return fl[a] < fl[b] })
 	for _, f := range fl {
 		ss, cs := byFace[f], candByFace[f]
+		if len(cs) == 0 && lapsedByFace[f] > 0 {
+			v = append(v, viol("C01.only", "copy sent to a face whose Interest expired: every lifetime recorded in the PIT entry elapsed and the reaper ran since ("+ctx+")", fmt.Sprintf("face %d received %d copies; %s", f, len(ss), hist)))
+			continue
+		}
 		if len(cs) == 0 {
 			v = append(v, viol("C01.only", "copy sent to a face holding no pending Interest the Data satisfies ("+ctx+")", fmt.Sprintf("face %d received %d copies; %s", f, len(ss), hist)))
 			continue
@@ -560,7 +615,10 @@ func (r *ref) sync(in *inst) (v []report.Violation) {
 	d := in.dump
 	for k, e := range r.pend {
 		for f, rc := range e.recs {
-			if implRec(d, k, f) != nil {
+			if ir := implRec(d, k, f); ir != nil {
+				if r.lapsed(e, now) {
+					v = append(v, viol("C01.only", "PIT keeps an in-record after every Interest lifetime recorded in the entry elapsed and the reaper ran (white-box)", fmt.Sprintf("PIT entry %s still has an in-record for face %d (expires in %s) although the latest lifetime among all Interests that arrived for it elapsed %s ago and the reaper ran %d times since: a matching Data would be delivered to a face that holds no pending Interest", k, f, ir.ExpireIn, now.Sub(e.deadline), r.ticksSince(e))))
+				}
 				continue
 			}
 			if !now.Before(rc.expiry) {
